@@ -278,7 +278,8 @@ fn seq_run(ctx: &Ctx, case: u64, l: u64, rng: &mut SmallRng, local: &mut BTreeMa
     let ctl = Ctl::new(1, vec![], None, 1);
     gate::bind(Some((ctl.clone(), 0)));
     let n = if cfg!(miri) { 60 } else { ctx.n(3000, 3000).min(3000) as usize };
-    let nkeys = rng.gen_range(2..40);
+    // (a fifth of the runs have hundreds of keys, so that one large store has to evict dozens of small records)
+    let nkeys = if rng.gen_ratio(1, 5) { rng.gen_range(100..400) } else { rng.gen_range(2..40) };
     let maxlen = [8usize, 64, 300, 4096][rng.gen_range(0..4)].min(if l < 2000 { 300 } else { 4096 });
     let mut last_len: u64 = 0;
     let mut trace: Vec<String> = vec![];
@@ -287,8 +288,20 @@ fn seq_run(ctx: &Ctx, case: u64, l: u64, rng: &mut SmallRng, local: &mut BTreeMa
     let picks = |ctl: &Ctl| ctl.counts.lock().unwrap().get("policy.evict.pick").copied().unwrap_or(0);
     let dones = |ctl: &Ctl| ctl.counts.lock().unwrap().get("policy.evict.done").copied().unwrap_or(0);
     let describe = |trace: &Vec<String>| json!({"engine":"evict-seq","case":case,"limit":l,"last_commands":trace.iter().rev().take(30).rev().collect::<Vec<_>>(),"replay_cmd":format!("/verif/check C14 replay --case {}", case)});
+    // with hundreds of keys the store fills up with tiny records, and now and then one store is a hundred times
+    // larger than they are: it has to evict dozens of records, and the store after it must again end within
+    // L + its own record
+    let tiny_huge = nkeys >= 100 && l >= 2000;
     for i in 0..n {
-        let w = gen_w(rng, nkeys, maxlen, true, true);
+        let w = if tiny_huge {
+            match rng.gen_range(0..20) {
+                0 => W::Set { k: rng.gen_range(0..nkeys), len: rng.gen_range((l as usize / 4).min(60_000)..=(l as usize / 2).min(120_000)), ttl: 0, cas: 0 },
+                1 | 2 => gen_w(rng, nkeys, maxlen, true, true),
+                _ => W::Set { k: rng.gen_range(0..nkeys), len: rng.gen_range(0..8), ttl: 0, cas: 0 },
+            }
+        } else {
+            gen_w(rng, nkeys, maxlen, true, true)
+        };
         if let W::Advance(d) = w {
             stack.timer.advance(d);
             continue;
